@@ -845,7 +845,7 @@ func keys(m map[string]int) []string {
 def switch_matrix_program():
     """every expression switch with 1-3 case clauses, a default clause at every position or none, every
     subset of clauses (but the last) ending in fallthrough, tagged and tagless, run on every selecting value"""
-    funcs, calls = [], []
+    funcs, calls, specs = [], [], []
     n = 0
     for tagged in (True, False):
         for ncase in (1, 2, 3):
@@ -868,8 +868,9 @@ def switch_matrix_program():
                             body.append("\t\tfallthrough")
                     body += ["\t}", "\treturn s", "}"]
                     funcs.append("\n".join(body))
+                    specs.append((n, ncase, [(kind, v, bool(ci < k and mask >> ci & 1)) for ci, (kind, v) in enumerate(clauses)]))
                     calls.append("\tfor x := 0; x <= %d; x++ {\n\t\tfmt.Println(%d, x, sw%d(x))\n\t}" % (ncase, n, n))
-    return "package main\n\nimport \"fmt\"\n\n" + "\n\n".join(funcs) + "\n\nfunc main() {\n" + "\n".join(calls) + "\n}\n", n
+    return "package main\n\nimport \"fmt\"\n\n" + "\n\n".join(funcs) + "\n\nfunc main() {\n" + "\n".join(calls) + "\n}\n", specs
 
 
 def statement_kinds_program(rng):
